@@ -9,9 +9,12 @@ import (
 	"encoding/json"
 	"fmt"
 	"io"
+	"os"
 	"sort"
 	"strconv"
 	"strings"
+	"sync/atomic"
+	"time"
 
 	"github.com/goatcms/goatcore/varutil/plainmap"
 )
@@ -209,6 +212,8 @@ func c20MakePrefixFree(keys []string) []string {
 // ---------- guarded calls of the implementation (a panic is an observable)
 
 func c20ImplFlatten(src map[string]interface{}) (kind string, out map[string]string) {
+	c20Begin(func() string { return "RecursiveMapToPlainMap " + fmt.Sprint(c20TreeDesc(src)) })
+	defer c20End()
 	defer func() {
 		if r := recover(); r != nil {
 			kind, out = "panic", nil
@@ -230,6 +235,8 @@ func c20ImplFlatten(src map[string]interface{}) (kind string, out map[string]str
 }
 
 func c20ImplUnflatS(src map[string]string) (kind string, out map[string]interface{}) {
+	c20Begin(func() string { return "StringMapToRecursiveMap " + fmt.Sprint(c20Pairs(src)) })
+	defer c20End()
 	defer func() {
 		if r := recover(); r != nil {
 			kind, out = "panic", nil
@@ -243,6 +250,8 @@ func c20ImplUnflatS(src map[string]string) (kind string, out map[string]interfac
 }
 
 func c20ImplUnflatI(src map[string]interface{}) (kind string, out map[string]interface{}) {
+	c20Begin(func() string { return "ToRecursiveMap " + fmt.Sprint(c20Pairs(c20EncFlat(src))) })
+	defer c20End()
 	defer func() {
 		if r := recover(); r != nil {
 			kind, out = "panic", nil
@@ -256,6 +265,8 @@ func c20ImplUnflatI(src map[string]interface{}) (kind string, out map[string]int
 }
 
 func c20ImplRead(data []byte) (kind string, out map[string]string) {
+	c20Begin(func() string { return "JSONToPlainStringMap " + c20q(string(data)) })
+	defer c20End()
 	defer func() {
 		if r := recover(); r != nil {
 			kind, out = "panic", nil
@@ -269,6 +280,8 @@ func c20ImplRead(data []byte) (kind string, out map[string]string) {
 }
 
 func c20ImplEmit(fm bool, m map[string]string) (kind string, text string) {
+	c20Begin(func() string { return fmt.Sprintf("PlainStringMapToJSON formatted=%v %v", fm, c20Pairs(m)) })
+	defer c20End()
 	defer func() {
 		if r := recover(); r != nil {
 			kind, text = "panic", ""
@@ -811,4 +824,154 @@ func c20Malformed(rng *RNG, valid func() string) (doc string, kind string) {
 		}
 		return s, "random_alphabet"
 	}
+}
+
+// ---------- typed leaves (flatten / ToRecursiveMap take and return interface{} values)
+
+type c20Leaf struct{ N int }
+
+func c20TypedLeaf(rng *RNG, str func(int) string) interface{} {
+	switch rng.Intn(20) {
+	case 0:
+		return nil
+	case 1:
+		return rng.Intn(5) - 2
+	case 2:
+		return float64(rng.Intn(7) - 3) // a whole float64 is not an int
+	case 3:
+		return float64(rng.Intn(1000)) / 8
+	case 4:
+		return rng.Bool()
+	case 5:
+		return int64(rng.Intn(3))
+	case 6:
+		return []interface{}{}
+	case 7:
+		return []interface{}{float64(1), str(3), nil}
+	case 8:
+		return []string{"a.b", str(2)}
+	case 9:
+		return map[string]string{"x": str(2)} // a map of another type is a leaf
+	case 10:
+		return map[string]string{}
+	case 11:
+		return json.Number([]string{"1e3", "0", "-1.50"}[rng.Intn(3)])
+	case 12:
+		return c20Leaf{N: rng.Intn(3)}
+	case 13:
+		return map[interface{}]interface{}{"k": 1}
+	case 14:
+		return ""
+	case 15:
+		return 0
+	}
+	return str(6)
+}
+
+// rendering of a leaf: Go type (short code for the types of the pool) and value
+var c20TypeCode = map[string]string{"<nil>": "0", "string": "s", "int": "i", "int64": "l", "float64": "f", "bool": "b", "[]interface {}": "A", "[]string": "S",
+	"map[string]string": "M", "json.Number": "N", "main.c20Leaf": "L", "map[interface {}]interface {}": "I"}
+
+func c20EncLeaf(v interface{}) string {
+	t := fmt.Sprintf("%T", v)
+	if c, ok := c20TypeCode[t]; ok {
+		t = c
+	}
+	if s, ok := v.(string); ok {
+		return t + "=" + s
+	}
+	return t + "=" + fmt.Sprintf("%#v", v)[len(fmt.Sprintf("%T", v))*c20Composite(v):]
+}
+
+// %#v repeats the type name in front of composite values: cut it off (the code carries the type)
+func c20Composite(v interface{}) int {
+	switch v.(type) {
+	case []interface{}, []string, map[string]string, map[interface{}]interface{}, c20Leaf:
+		return 1
+	}
+	return 0
+}
+
+func c20EncTree(m map[string]interface{}) map[string]interface{} {
+	if m == nil {
+		return nil
+	}
+	out := make(map[string]interface{}, len(m))
+	for k, v := range m {
+		if sub, ok := v.(map[string]interface{}); ok {
+			out[k] = c20EncTree(sub)
+		} else {
+			out[k] = c20EncLeaf(v)
+		}
+	}
+	return out
+}
+
+func c20EncFlat(m map[string]interface{}) map[string]string {
+	out := make(map[string]string, len(m))
+	for k, v := range m {
+		out[k] = c20EncLeaf(v)
+	}
+	return out
+}
+
+func c20ImplFlattenAny(src map[string]interface{}) (kind string, out map[string]interface{}) {
+	c20Begin(func() string { return "RecursiveMapToPlainMap " + fmt.Sprint(c20TreeDesc(src)) })
+	defer c20End()
+	defer func() {
+		if r := recover(); r != nil {
+			kind, out = "panic", nil
+		}
+	}()
+	res, err := plainmap.RecursiveMapToPlainMap(src)
+	if err != nil {
+		return "err", nil
+	}
+	return "ok", res
+}
+
+// ---------- watchdog: a call of the pure functions that does not return is reported (no_hang)
+// instead of running into the time limit of the orchestrator
+
+var (
+	c20InCall int32
+	c20Ticks  int64
+	c20What   atomic.Value // func() string
+)
+
+func c20Begin(what func() string) {
+	c20What.Store(what)
+	atomic.AddInt64(&c20Ticks, 1)
+	atomic.StoreInt32(&c20InCall, 1)
+}
+
+func c20End() { atomic.StoreInt32(&c20InCall, 0) }
+
+// the main goroutine is stuck inside the library when this fires, so nothing else touches o
+func c20Watchdog(o *Out, limit time.Duration) {
+	go func() {
+		last, since := int64(-1), time.Now()
+		for {
+			time.Sleep(250 * time.Millisecond)
+			t := atomic.LoadInt64(&c20Ticks)
+			if atomic.LoadInt32(&c20InCall) == 0 || t != last {
+				last, since = t, time.Now()
+				continue
+			}
+			if time.Since(since) < limit {
+				continue
+			}
+			what := "a call"
+			if f, ok := c20What.Load().(func() string); ok {
+				what = f()
+			}
+			if len(what) > 600 {
+				what = what[:600] + "..."
+			}
+			o.Fail("no_hang", fmt.Sprintf("%s did not return within %v", what, limit), "hang", map[string]interface{}{"op": "hang", "call": what})
+			o.Stat("hang")
+			o.Finish()
+			os.Exit(0)
+		}
+	}()
 }
